@@ -1,4 +1,4 @@
-package main
+package c13facts
 
 // Block translator for crypto.DecomposePQ: the straight-line pieces of the three nested loops
 // (drawing v and x, per-round initialisation, the binary multiplication step, the z / gcd / y / j / flag
